@@ -425,9 +425,9 @@ func (in *inliner) declOf(fn *types.Func) *ast.FuncDecl {
 	return nil
 }
 
-func (in *inliner) inlinable(fn *types.Func, fd *ast.FuncDecl) bool {
+func (in *inliner) inlinable(fn *types.Func, fd *ast.FuncDecl, sameGenericRecv bool) bool {
 	sig := fn.Type().(*types.Signature)
-	if sig.Variadic() || sig.TypeParams().Len() > 0 || sig.RecvTypeParams().Len() > 0 {
+	if sig.Variadic() || sig.TypeParams().Len() > 0 || (sig.RecvTypeParams().Len() > 0 && !sameGenericRecv) {
 		return false
 	}
 	if len(in.stack) > inlineMaxDepth {
@@ -598,7 +598,21 @@ func (in *inliner) tryInline(lhs []ast.Expr, tok token.Token, call *ast.CallExpr
 		}
 	}
 	fd := in.declOf(fn)
-	if fd == nil || !in.inlinable(fn, fd) {
+	// a method of a generic type called on the caller's own receiver: both methods range over
+	// the same instantiation, so the helper's body reads the same in the caller
+	sameGenericRecv := false
+	if sg := fn.Type().(*types.Signature); sg.RecvTypeParams().Len() > 0 && len(in.stack) > 0 {
+		if sel, ok := ast.Unparen(call.Fun).(*ast.SelectorExpr); ok {
+			if id, ok := ast.Unparen(sel.X).(*ast.Ident); ok {
+				if self, ok := in.stack[0].Type().(*types.Signature); ok && self.Recv() != nil && in.info.Uses[id] == types.Object(self.Recv()) {
+					if namedTypeName(self.Recv().Type()) == namedTypeName(sg.Recv().Type()) && namedTypeName(sg.Recv().Type()) != "" {
+						sameGenericRecv = true
+					}
+				}
+			}
+		}
+	}
+	if fd == nil || !in.inlinable(fn, fd, sameGenericRecv) {
 		return nil
 	}
 	sig := fn.Type().(*types.Signature)
